@@ -92,6 +92,14 @@ def to_term(expr: ast.AST, atom: Callable[[ast.AST], Optional[object]]) -> Term:
                 return t_apply("M" if name != "solve" else "S", to_term(expr.args[1], atom))
         if name in ("add", "sub", "subtract") and len(expr.args) == 2 and ch and ch.split(".")[0] == "torch":
             return t_add(to_term(expr.args[0], atom), to_term(expr.args[1], atom), 1 if name == "add" else -1)
+    if isinstance(expr, ast.Subscript) and isinstance(expr.slice, ast.Tuple) and expr.slice.elts and isinstance(expr.slice.elts[-1], ast.Constant) and expr.slice.elts[-1].value == 0 \
+            and all((isinstance(e, ast.Constant) and e.value is Ellipsis) or (isinstance(e, ast.Slice) and e.lower is None and e.upper is None and e.step is None) for e in expr.slice.elts[:-1]):
+        # X[..., 0] of a product with a column vector v.unsqueeze(-1): the same as .squeeze(-1)
+        inner = expr.value
+        if isinstance(inner, ast.Call) and attr_chain(inner.func) in ("torch.matmul", "torch.bmm", "torch.linalg.solve") and len(inner.args) == 2:
+            col = inner.args[1]
+            if isinstance(col, ast.Call) and isinstance(col.func, ast.Attribute) and col.func.attr == "unsqueeze" and col.args and dump(col.args[0]) in ("-1", "2"):
+                return to_term(inner, atom)
     if isinstance(expr, ast.BinOp) and isinstance(expr.op, ast.MatMult):
         if atom(_strip_shape(expr.left)) == "M":
             return t_apply("M", to_term(expr.right, atom))
